@@ -25,7 +25,7 @@ REQUIRED_REACH = ["_sktime.py:_SktimeForecaster._update_y_X", "_sktime.py:_Sktim
                   "_sktime.py:_SktimeForecaster._detached_cutoff", "_ensemble.py:EnsembleForecaster.update",
                   "_pipeline.py:TransformedTargetForecaster.update", "_multiplexer.py:MultiplexForecaster.update", "theta.py:ThetaForecaster.update"]
 REQUIRED_MONITORS = ["memory", "cutoff", "refit-equivalence", "params-frozen", "forecast-from-new-cutoff", "update_predict.equivalence",
-                     "update_predict.labels", "update_predict.cutoff-restored"]
+                     "update_predict.labels", "update_predict.cutoff-restored", "memory.pipeline"]
 NOT_COVERED = ["data arriving out of time order", "exogenous data", "prediction intervals"]
 ASSUMPTIONS = ["'refits on update' is decided per spec: leaf forecasters inheriting the default update and composites of those"]
 JOBS = {"quick": 8, "thorough": 16}
@@ -166,6 +166,7 @@ def run_case(case, ctx):
     fh_known = fh_in == "fit"
     changes = 0
     refits = zoo.refits_on_update(spec)
+    chain_static = [True]     # no parameter-updating call since the fit
 
     def stored_form():
         """the union of everything given, in the representation the forecaster documents to store"""
@@ -188,6 +189,28 @@ def run_case(case, ctx):
                       differing=[t for t in exp if t in got and abs(got[t] - exp[t]) > 1e-9 * (1 + abs(exp[t]))][:5])
         ctx.check("cutoff", f.cutoff == cutoff, "cutoff:not-last-time-point-given:" + spec[0], "cutoff is not the last time point given", where=where,
                   got=f.cutoff, expected=cutoff)
+        # a pipeline's final forecaster remembers the same union in the pipeline's transformed representation. Judged while the
+        # transformers still have the state of the last fit (no parameter-updating call since): all of them map (time, value)
+        # pointwise then, so the expected memory is the chain applied to the whole union
+        if spec[0] == "pipeline" and chain_static[0] and getattr(f, "steps_", None):
+            fin = f.steps_[-1][1]
+            zz = getattr(fin, "_y", None)
+            if zz is not None and not (type(fin).__name__ == "ThetaForecaster" and fin.deseasonalize):
+                try:
+                    e = mem_series()
+                    for _, t in f.steps_[:-1]:
+                        e = t.transform(e)
+                except Exception as ex:  # noqa
+                    ctx.tag("pipeline-memory-reference-failed:" + type(ex).__name__)
+                    e = None
+                if e is not None:
+                    got = dict(zip([int(t) for t in zz.index], [float(v) for v in zz.values]))
+                    exp = dict(zip([int(t) for t in e.index], [float(v) for v in e.values]))
+                    same = set(got) == set(exp) and all(abs(got[t] - exp[t]) <= 1e-7 * (1 + abs(exp[t])) for t in exp)
+                    ctx.check("memory.pipeline", same, "memory:pipeline:final-forecaster-does-not-remember-the-transformed-observations",
+                              "the pipeline's final forecaster does not remember the union of all observations in the pipeline's transformed representation",
+                              where=where, transformers=[type(t).__name__ for _, t in f.steps_[:-1]], missing=sorted(set(exp) - set(got))[:5], extra=sorted(set(got) - set(exp))[:5],
+                              differing=[(t, got[t], exp[t]) for t in exp if t in got and abs(got[t] - exp[t]) > 1e-7 * (1 + abs(exp[t]))][:4])
 
     def mem_series():
         ts = sorted(mem)
@@ -215,6 +238,8 @@ def run_case(case, ctx):
                 fh_known = True
             if not ok:
                 return
+            if up:
+                chain_static[0] = False
             for t, v in zip(ts, bvals):
                 mem[t] = v
             cutoff = ts[-1]
@@ -291,6 +316,8 @@ def run_case(case, ctx):
             except Exception:  # noqa
                 g = copy.deepcopy(f)
             c_before = f.cutoff
+            if up:
+                chain_static[0] = False
             ok, res = ctx.call(pre + "update_predict:exception:" + spec[0], f.update_predict, seg.copy(), cv=mk(), update_params=up)
             if not ok:
                 return
@@ -347,6 +374,8 @@ def run_case(case, ctx):
                 ctx.check("memory", set(got) == set(exp) and all(abs(got[t] - exp[t]) <= 1e-9 * (1 + abs(exp[t])) for t in exp),
                           "memory:after-update_predict:" + spec[0], "remembered series after update_predict is not the union of what was given",
                           missing=sorted(set(exp) - set(got))[:5], extra=sorted(set(got) - set(exp))[:5])
+            if spec[0] == "pipeline":
+                check_state("after update_predict #%d" % k) if f.cutoff == cutoff else None
             desync = True   # the moving-cutoff run advanced nested members; only the outer cutoff is restored
             fh = fh_outer
     ctx.event(spec=zoo.describe(spec), fh=fh, fh_in=fh_in, ops=[o[0] for o in case["ops"]], final_cutoff=cutoff, remembered=len(mem))
